@@ -998,8 +998,10 @@ func (r *runner) quiesceAndCheck(ev string) bool {
 					}
 					for _, fn := range []string{"database", "journal", "wal", "shm"} {
 						if fi, err := os.Stat(filepath.Join(db.Path(), fn)); err == nil {
-							if fn == "database" && fi.Size() == 0 && r.recreateRolledBack[db.Name()] {
-								continue // the empty file an application created and then gave up on (createrb), not a left-over of the drop
+							if fn == "database" && fi.Size() == 0 && (r.recreateRolledBack[db.Name()] || db.Pos().TXID == 0) {
+								// the empty file an application created and then gave up on (createrb), or that of a database which
+								// never had a transaction (created, nothing written yet): not a left-over of a drop
+								continue
 							}
 							r.viol("C15/file-left-after-drop/"+fn, "%s/%s: file %q still exists although the database has zero pages at %s", name, db.Name(), fn, db.Pos())
 						}
@@ -1252,6 +1254,11 @@ func (r *runner) enabled() []string {
 		if has("svc:stray") {
 			if _, err := os.Stat(filepath.Join(r.svc.Dir, "zz")); err != nil {
 				out = append(out, "svc:stray:zz")
+			}
+		}
+		if has("svc:newdb") && p.DB("yy") == nil {
+			if _, err := os.Stat(filepath.Join(r.svc.Dir, "yy")); err != nil {
+				out = append(out, "svc:newdb:yy")
 			}
 		}
 		for _, db := range dbs {
@@ -1535,6 +1542,21 @@ func (r *runner) svcEvent(kind, db string) bool {
 		// what a first upload that failed before its first byte leaves behind: a directory without a transaction file,
 		// for a database no node has (any more)
 		_ = os.MkdirAll(filepath.Join(r.svc.Dir, db), 0o777)
+		return true
+	}
+	if kind == "newdb" {
+		// the service holds a database this primary has never seen (the primary runs on a fresh volume, or another
+		// cluster member uploaded it long ago): one snapshot file at TXID 1
+		ps := r.cfg.PageSize
+		img := &oracle.Image{PageSize: ps}
+		img.Pages = append(img.Pages, pager.MakePage1(ps, 1, 2, false, 9), pager.MakePage(ps, 2, 0x770000))
+		data := lab.EncodeLTX(ltx.Header{Version: 1, PageSize: uint32(ps), Commit: 2, MinTXID: 1, MaxTXID: 1, Timestamp: 3, NodeID: 0xA4EAD},
+			map[uint32][]byte{1: img.Pages[0], 2: img.Pages[1]}, img.Checksum())
+		if err := r.svc.Put(db, 1, 1, data); err != nil {
+			r.res.Harness = err.Error()
+			return false
+		}
+		r.record(db, ltx.Pos{TXID: 1, PostApplyChecksum: ltx.Checksum(img.Checksum())}, img)
 		return true
 	}
 	for _, n := range r.c.Names() {
